@@ -306,24 +306,35 @@ theorem union_template_understood (env : String → Bool) (members : List Name) 
   have h : tplKnown unionTemplate = true := by decide
   ⟨h, by decide, occs_total env members hne unionTemplate h⟩
 
-/-- A union of TWO OR MORE members never looks a member up at import: whatever the template variables
-are (description, anything `parse_union` or the user passes in `extra_template_data`) and however many
-members there are, every member of the rendered alias sits inside a string literal — a forward
+/-- A union alias NEVER looks a member up at import: whatever the template variables are (description,
+anything `parse_union` or the user passes in `extra_template_data`) and however many members the union
+has — ONE included: the one-member form `Uu: TypeAlias = Union['Alpha']` quotes its member like the
+list form does — every member of the rendered alias sits inside a string literal, a forward
 reference. So the alias cannot raise NameError, wherever the member classes are emitted.
-(From the side condition `safeMulti unionTemplate`, decided by the kernel on the generated template.) -/
-theorem union_alias_members_quoted (env : String → Bool) (members : List Name) (h2 : 2 ≤ members.length)
+(From the side condition `safeFrom 1 unionTemplate`, decided by the kernel on the generated template.
+Before the repair of C17-single-member-union only `safeFrom 2` held and this theorem carried the
+hypothesis `2 ≤ members.length`.) -/
+theorem union_alias_members_quoted (env : String → Bool) (members : List Name) (hne : members ≠ [])
     (os : List Occ) (h : occs env members unionTemplate = some os) :
     (∀ o ∈ os, o.eager = false) ∧ eagerMembers os = [] :=
-  have hs : safeMulti unionTemplate = true := by decide
-  have h1 := safeMulti_sound env members h2 unionTemplate os hs h
+  have hs : safeFrom 1 unionTemplate = true := by decide
+  have hlen : 1 ≤ members.length := by
+    cases members with
+    | nil => exact absurd rfl hne
+    | cons _ _ => simp
+  have h1 := safeFrom_sound 1 env members hlen unionTemplate os hs h
   ⟨h1, eagerMembers_nil_of_none_eager os h1⟩
 
-/-- non-vacuity: three members, with and without a description — all quoted, in order -/
+/-- non-vacuity: three members and ONE member, with and without a description — all quoted, in order,
+nothing evaluated -/
 example :
     let ms := ["Aa".toList, "Bb".toList, "Cc".toList]
     (occs (fun _ => false) ms unionTemplate).map quotedMembers = some ms ∧
     (occs (fun _ => false) ms unionTemplate).map eagerMembers = some [] ∧
-    (occs (fun v => v == "description") ms unionTemplate).map quotedMembers = some ms := by decide
+    (occs (fun v => v == "description") ms unionTemplate).map quotedMembers = some ms ∧
+    (occs (fun _ => false) ["Alpha".toList] unionTemplate).map quotedMembers = some ["Alpha".toList] ∧
+    (occs (fun _ => false) ["Alpha".toList] unionTemplate).map eagerMembers = some [] ∧
+    (occs (fun v => v == "description") ["Alpha".toList] unionTemplate).map eagerMembers = some [] := by decide
 
 /-- The alias lists EXACTLY the members: with two or more members the rendered alias contains — on
 every path, whatever the template variables are — every member once, in the order of
@@ -379,7 +390,9 @@ theorem emit_order_is_permutation (defs : List Def) :
 /-- LATE: a type that the first pass of `sort_data_models` keeps back (one of its interfaces, or the
 enum of one of its fields, is not placed yet when it is visited — e.g. it implements an interface that
 implements an interface visited later) is NOT bound when the alias of ANY union is executed. This is
-why a union alias must not evaluate its members. -/
+why a union alias must not evaluate its members (`union_alias_members_quoted`). Still true after the
+repair of C17-single-member-union: the repair changed what the one-member alias evaluates, not the
+order of the definitions. -/
 theorem late_member_unbound_at_alias (defs : List Def)
     (hnd : ((nodes parseKinds defs).map (·.name)).Nodup) (u : Def) (hu : u ∈ defs) (huk : u.kind = .union)
     (m : Name) (hm : late parseKinds defs m = true) :
@@ -401,44 +414,32 @@ theorem member_early_or_late (defs : List Def) (d : Def) (hd : d ∈ defs) :
   refine early_or_late parseKinds defs d ((mem_results parseKinds defs d).mpr ⟨hd, ?_⟩)
   cases d.kind <;> decide
 
-/-- FULL STRENGTH (kept visible; FALSE of the code, see `single_member_alias_before_member`): every name
-the alias line of a union evaluates at import is bound by then. -/
+/-- FULL STRENGTH: every name the alias line of a union evaluates at import is bound by then.
+(FALSE of the tree before the repair of C17-single-member-union — the one-member alias was the bare
+member name and `singleMemberWitness` below refuted it; TRUE since: `aliases_resolve_full`.) -/
 def AliasesResolve : Prop :=
   ∀ (env : String → Bool) (defs : List Def), ((nodes parseKinds defs).map (·.name)).Nodup →
     ∀ u ∈ defs, u.kind = .union → u.members ≠ [] →
       (∀ m ∈ u.members, ∃ d ∈ defs, d.name = m ∧ d.kind = .object) →
       aliasResolves unionTemplate env parseKinds defs u = true
 
-/-- PARTIAL (all schemas, all settings of the template variables, any number of members): the alias of
-a union resolves at import provided that, WHEN THE UNION HAS A SINGLE MEMBER, that member is early.
-(With two or more members nothing is evaluated — `union_alias_members_quoted`; with one member the
-template writes the bare name, which is bound iff the member is early.) -/
-theorem aliases_resolve_partial (env : String → Bool) (defs : List Def)
-    (hnd : ((nodes parseKinds defs).map (·.name)).Nodup) (u : Def) (hu : u ∈ defs) (huk : u.kind = .union)
-    (hne : u.members ≠ [])
-    (hmem : ∀ m ∈ u.members, ∃ d ∈ defs, d.name = m ∧ d.kind = .object)
-    (hsingle : ∀ m, u.members = [m] → early parseKinds defs m = true) :
-    aliasResolves unionTemplate env parseKinds defs u = true := by
+/-- The alias of EVERY union resolves at import: all settings of the template variables, any number of
+members (one included), wherever `sort_data_models` puts the member classes — early or late — and
+whatever the schema is (not even the hypotheses of `AliasesResolve` on the schema are needed: the alias
+evaluates no member at all, `union_alias_members_quoted`). Replaces `aliases_resolve_partial`, which
+had to assume that the member of a one-member union is early. -/
+theorem aliases_resolve (env : String → Bool) (order : List Kind) (defs : List Def) (u : Def)
+    (hne : u.members ≠ []) :
+    aliasResolves unionTemplate env order defs u = true := by
   obtain ⟨_, _, os, hos⟩ := union_template_understood env u.members hne
-  simp only [aliasResolves, hos, List.all_eq_true]
-  intro m hm
-  have hmm := (union_alias_eager_names_are_members env u.members os hos).1 m hm
-  by_cases h2 : 2 ≤ u.members.length
-  · rw [(union_alias_members_quoted env u.members h2 os hos).2] at hm
-    simp at hm
-  · have : ∃ x, u.members = [x] := by
-      match hu' : u.members with
-      | [] => exact absurd hu' hne
-      | [x] => exact ⟨x, rfl⟩
-      | _ :: _ :: _ => rw [hu'] at h2; simp at h2
-    obtain ⟨x, hx⟩ := this
-    have hmx : m = x := by rw [hx] at hmm; simpa using hmm
-    subst hmx
-    obtain ⟨d, hd, hdn, hdk⟩ := hmem m hmm
-    subst hdn
-    exact early_member_bound_at_alias defs hnd u hu huk d hd (by rw [hdk]; decide) (hsingle _ hx)
+  simp only [aliasResolves, hos, (union_alias_members_quoted env u.members hne os hos).2]
+  rfl
 
-/-- the schema of known finding C17-single-member-union: `union Uu = Alpha`, `type Alpha implements
+/-- the full statement, formerly refuted (`aliases_resolve_full_false`), is a theorem -/
+theorem aliases_resolve_full : AliasesResolve :=
+  fun env defs _ u _ _ hne _ => aliases_resolve env parseKinds defs u hne
+
+/-- the schema of the REPAIRED finding C17-single-member-union: `union Uu = Alpha`, `type Alpha implements
 Aged & Base`, `interface Aged implements Base`, `interface Base` (type_map order is lexicographic) -/
 def singleMemberWitness : List Def := [
   { name := "Aged".toList, kind := .interface, interfaces := ["Base".toList], fieldTypes := ["Uu".toList] },
@@ -466,7 +467,7 @@ theorem emit_complete_of_acyclic (defs : List Def) (rank : Name → Nat)
     refine List.mem_map.mpr ⟨d', (mem_results parseKinds defs d').mpr ⟨hd', ?_⟩, rfl⟩
     cases d'.kind <;> decide
 
-/-- non-vacuity: the schema of the refutation below is ranked by the length of … its own chain
+/-- non-vacuity: the schema of the former refutation (below) is ranked by the length of … its own chain
 (`Base` 0, `Aged` 1, `Alpha` 2), and is emitted completely -/
 example : (emit parseKinds singleMemberWitness).2 = true ∧
     ∀ d ∈ singleMemberWitness, ∀ r ∈ refs singleMemberWitness d, r = d.name ∨
@@ -475,30 +476,33 @@ example : (emit parseKinds singleMemberWitness).2 = true ∧
         (fun n => if n = "Aged".toList then 1 else if n = "Alpha".toList then 2 else 0) d.name := by
   decide
 
-/-- REFUTATION of the full statement (known finding C17-single-member-union): `Aged` is visited before
-`Base`, so it is late, and so is `Alpha`; the alias `Uu: TypeAlias = Alpha` is emitted by the first pass
-and looks `Alpha` up before the class exists. -/
-theorem single_member_alias_before_member :
+/-- The former REFUTATION of the full statement, now holding (repaired finding
+C17-single-member-union): `Aged` is visited before `Base`, so it is late, and so is `Alpha`; the alias of
+`Uu` is emitted by the first pass, BEFORE class `Alpha` — and resolves, because it is
+`Uu: TypeAlias = Union['Alpha']` and looks nothing up. (Kernel-evaluated on the generated template: on
+the tree before the repair the last conjunct is `false`.) -/
+theorem single_member_alias_before_member_resolves :
     emitOrder parseKinds singleMemberWitness =
       ["Boolean".toList, "String".toList, "Base".toList, "Uu".toList, "Aged".toList, "Alpha".toList] ∧
     late parseKinds singleMemberWitness "Alpha".toList = true ∧
+    definedBefore (emitOrder parseKinds singleMemberWitness) "Alpha".toList "Uu".toList = false ∧
     aliasResolves unionTemplate (fun _ => false) parseKinds singleMemberWitness
-      { name := "Uu".toList, kind := .union, members := ["Alpha".toList] } = false := by decide
+      { name := "Uu".toList, kind := .union, members := ["Alpha".toList] } = true := by decide
 
-theorem aliases_resolve_full_false : ¬ AliasesResolve := by
-  intro h
-  have := h (fun _ => false) singleMemberWitness (by decide)
-    { name := "Uu".toList, kind := .union, members := ["Alpha".toList] } (by decide) rfl (by decide)
-    (by
-      intro m hm
-      simp at hm; subst hm
-      exact ⟨{ name := "Alpha".toList, kind := .object, interfaces := ["Aged".toList, "Base".toList],
-               fieldTypes := ["Uu".toList] }, by decide, rfl, rfl⟩)
-  rw [single_member_alias_before_member.2.2] at this
-  exact absurd this (by decide)
+/-- non-vacuity of `AliasesResolve` / `aliases_resolve_full`: its hypotheses hold of the former witness
+(distinct names, `Uu` a union of the schema, non-empty, its member an object type of the schema) -/
+example :
+    ((nodes parseKinds singleMemberWitness).map (·.name)).Nodup ∧
+    ({ name := "Uu".toList, kind := .union, members := ["Alpha".toList] } : Def) ∈ singleMemberWitness ∧
+    (∀ m ∈ ["Alpha".toList], ∃ d ∈ singleMemberWitness, d.name = m ∧ d.kind = .object) := by
+  refine ⟨by decide, by decide, ?_⟩
+  intro m hm
+  simp at hm; subst hm
+  exact ⟨{ name := "Alpha".toList, kind := .object, interfaces := ["Aged".toList, "Base".toList],
+           fieldTypes := ["Uu".toList] }, by decide, rfl, rfl⟩
 
-/-- non-vacuity of the partial theorem: the same schema with a second member `Beta`, late member and
-all — the alias resolves because it evaluates nothing; and a single-member union over an early member -/
+/-- the same schema with a second member `Beta` (late member and all), and a one-member union over
+the early `Beta` -/
 example :
     let defs : List Def := singleMemberWitness.dropLast ++
       [{ name := "Beta".toList, kind := .object }, { name := "Uu".toList, kind := .union, members := ["Alpha".toList, "Beta".toList] },
